@@ -70,10 +70,11 @@ P['C09']={
  "posts":{ H+"Process":["logout","inv","ok_justified","noerr","status"], H+"redirectToIDP":["old_sid","no_gen","view"],
    H+"Process@intf":["ok_after_logout","no_resurrection","callback_others","inv","lo_issued"], H+"redirectToIDP@intf":[], H+"retrieveTokens@intf":[], H+"refreshToken@intf":[] },
  "variant":"intf",
+ "refines":["oidc.memoryStore.RemoveSession","oidc.redisStore.RemoveSession"],
  "variant_functions":[H+"refreshToken",H+"redirectToIDP",H+"retrieveTokens",H+"Process"],
- "kinds":["post","pre@call","frame","cover","lemma","inv-init","inv-step"],
+ "kinds":["post","pre@call","frame","cover","lemma","inv-init","inv-step","refine"],
  "lemmas":["L-absent-stable"],
- "required":[H+"Process:post:logout", H+"Process@intf:post:ok_after_logout@ret1", H+"Process@intf:post:ok_after_logout@ret2", H+"Process@intf:post:no_resurrection@ret1", H+"Process@intf:post:no_resurrection@ret2", H+"redirectToIDP@intf:post:final", H+"refreshToken@intf:post:final", H+"retrieveTokens@intf:post:final_others"],
+ "required":[H+"Process:post:logout", "oidc.redisStore.RemoveSession:refine:SessionStore.RemoveSession.ok", "oidc.memoryStore.RemoveSession:refine:SessionStore.RemoveSession.ok", H+"Process@intf:post:ok_after_logout@ret1", H+"Process@intf:post:ok_after_logout@ret2", H+"Process@intf:post:no_resurrection@ret1", H+"Process@intf:post:no_resurrection@ret2", H+"redirectToIDP@intf:post:final", H+"refreshToken@intf:post:final", H+"retrieveTokens@intf:post:final_others"],
  "note":"sequential half: the logout answer, removal before answering, error instead of success when removal fails, and — by ok_justified — no OK for an absent session. In-flight half (contract variant intf): between any two store operations of a check, other requests may have answered logouts of any sessions (ghost LoggedOut; the store contracts are restated over the content each operation finds); Process and its helpers are verified never to answer OK for, nor to bring back, a session whose logout has been answered, except by completing a login for it. This holds on every path but the token-refresh path: known finding K1"}
 P['C11']={
  "posts":{
